@@ -267,6 +267,9 @@ struct Runner {
                     // "big": every big-th record carries a name larger than the encoder's staging buffer (large RDATA, payloads)
                     unsigned big = st.value("big", 0u);
                     if (big && r % big == big - 1) g.query_name = std::string(3000 + r % 7, static_cast<char>('A' + r % 26));
+                    // "asn": the record ends with a text of that length (the last member of the last record decides where
+                    // the closing break meets the staging buffer)
+                    if (st.contains("asn")) g.asn = std::string(st["asn"].get<unsigned>() + r % 2, 'z');
                     guarded_block("rec", [&] { ex->buffer_qr(g); });
                 }
             }
